@@ -12,6 +12,7 @@ operators, polymorphic Range) can be digested neither by Apalache 0.58's type ch
   step     apalache-mc check --init=IndInit --inv=IndInv,Props[,<action property>] --length=1 MC_<Name>_apa.tla
            (IndInit = an arbitrary state of bounded size (Gen) that satisfies IndInv; Props at state 0 is
            IndInv => Property, the action property is checked on the one transition)
+           quick tier: base and step in ONE query, --init=BaseOrIndInit (= Init \\/ IndInit), to save a JVM start
   tlaps    tlapm <Name>Proof.tla : Spec => []Property through the same invariant, unbounded; plus
            tlapm --summary: no OMITTED, no missing proof
   control  the same step query / the same proof script against <Name>_broken.tla (one weakened action); it must
@@ -56,7 +57,8 @@ FAMILIES = {
         apa="MC_Serializer_apa", indinv="IndInvA", props="Props", action=None,
         bounds={"Ids": "1..5", "Len(queue), Len(reqd), Len(started)": "<= 4 (5 after the step)", "integers": "unbounded"},
         properties=["Mutex (at most one operation in progress)", "FIFO (operations start in request order)", "ReturnAfterFinish"],
-        proof="SerializerProof", tlaps_quick=True, proof_theorems=["Inductive: Spec => []MInv", "MutualExclusion: Spec => []Mutex"],
+        proof="SerializerProof", tlaps_quick=True,
+        proof_theorems=["Inductive: Spec => []MInv", "MutualExclusion: Spec => []Mutex", "FifoInductive: Spec => []FInv", "StartInRequestOrder: Spec => []FIFO"],
         agree="AgreeSerializer",
         agree_cfg=("SPECIFICATION AgSpec\nCONSTANTS\n  N = %(N)s\n  Faulty = %(Faulty)s\nINVARIANT GuardsAgree\nINVARIANT CoreIndInv\nINVARIANT CoreMutex\n"
                    "INVARIANT CoreFIFO\nINVARIANT CoreMutexInv\nINVARIANT FormsAgree\nPROPERTY StepsAreCoreSteps\nCHECK_DEADLOCK FALSE\n"),
@@ -70,7 +72,7 @@ FAMILIES = {
                 "sequence numbers": "unbounded integers"},
         properties=["NeverOlder (an older announcement never replaces a newer one)", "Monotone (Introducer.tla's MonotoneStep on every step)",
                     "Authentic (stored entries came with a verifying signature)", "SubscribedOnly"],
-        proof=None, proof_theorems=[],
+        proof="IntroducerProof", proof_theorems=["Inductive: Spec => []NInv", "OlderNeverReplacesNewer: Spec => []NeverOlder", "MonotoneSteps: Spec => [][Monotone]_vars"],
         agree="AgreeIntroducer",
         agree_cfg=("SPECIFICATION Spec\nCONSTANTS\n  Keys = {\"k1\", \"k2\"}\n  Services = %(Services)s\n  Subs0 = {\"storage\"}\n  MaxSeq = %(MaxSeq)s\n"
                    "  Bodies = {\"a\", \"b\"}\n  MaxBatch = 1\n  MaxStep = 1\n  LateSubscribe = TRUE\nINVARIANT TypeOK\nINVARIANT OperatorsAgree\n%(fold)s"
@@ -89,7 +91,7 @@ FAMILIES = {
         proof=None, proof_theorems=[],
         agree="AgreeCrawler",
         agree_cfg=("SPECIFICATION ASpec\nCONSTANTS\n  NP = 3\n  Universe = %(Universe)s\n  MaxBuckets = %(MaxBuckets)s\n  MaxCycles = 2\n  MaxKills = %(MaxKills)s\n"
-                   "  MaxChanges = 1\nINVARIANT TypeOK\nINVARIANT ListingAgrees\nINVARIANT GhostsAgree\nINVARIANT CoreIndInv\nINVARIANT CoreCover\n"
+                   "  MaxChanges = 1\nINVARIANT TypeOK\nINVARIANT ListingAgrees\nINVARIANT GuardsAgree\nINVARIANT GhostsAgree\nINVARIANT CoreIndInv\nINVARIANT CoreCover\n"
                    "INVARIANT CoreCycleNums\nINVARIANT ConstAgree\nPROPERTY StepsAreCoreSteps\nPROPERTY C27_Cover\nCHECK_DEADLOCK FALSE\n"),
         agree_consts={"quick": {"Universe": "{11, 12, 21}", "MaxBuckets": 3, "MaxKills": 1},
                       "thorough": {"Universe": "{11, 12, 21, 22, 31}", "MaxBuckets": 4, "MaxKills": 1}},
@@ -337,7 +339,7 @@ def run(ctx):
                         module=cmod + ".tla (generated: %s with %s)" % (F["apa"], F["broken"]), init=init, invariant=inv, length=length, bounds=F["bounds"])
         if F["proof"]:
             first = quick and F.get("tlaps_quick")
-            add((5 if first else 40) + n, 2, 45, fam, "tlaps", "tlapm", False,
+            add((5 if first else 40) + n, 2, 45 if first else 25, fam, "tlaps", "tlapm", False,
                 lambda t, F=F, fam=fam: tlapm(work, F["proof"], fam, min(t, per_job * 2), 2),
                 module=F["proof"] + ".tla", invariant="; ".join(F["proof_theorems"]), bounds="none (unbounded)")
             if not quick:
@@ -373,7 +375,10 @@ def run(ctx):
                     res2 = tlapm(work, FAMILIES[fam]["proof"], fam, min(max(5, int(deadline - time.time())), per_job * 2), 6)
                     res2["first_attempt"] = res["detail"]
                     res2["wall_s"] = round(res2["wall_s"] + res["wall_s"], 1)
-                    res = res2
+                    if res2["verdict"] in ("timeout", "tool_error"):       # keep the informative answer
+                        res = dict(res, wall_s=res2["wall_s"], retry="second attempt with 3x longer back-end timeouts: " + res2["verdict"])
+                    else:
+                        res = res2
             except vcore.MachineryError as e:
                 res = {"verdict": "timeout" if "timed" in str(e)[:200] else "tool_error", "wall_s": 0, "detail": str(e)[:400]}
             except Exception as e:                                   # noqa
